@@ -408,18 +408,80 @@ pub fn push_violation(vs: &mut Vec<Violation>, v: Violation) {
     }
 }
 
-/// Probe counters derived from an expression tree's text.
-pub fn tree_probes(show: &str, stats: &mut Stats) {
-    for (needle, name) in [
-        ("matrix([", "probe_matrix_formed"),
-        ("aho_corasick(", "probe_aho_formed"),
-        ("regex_set(", "probe_regex_set_formed"),
-        ("nested(", "probe_nested"),
-        ("negate(", "probe_negate"),
-        ("all(", "probe_match_all"),
-        ("of(", "probe_match_of"),
+/// Node kinds present in an expression tree (walks the public `Expression`, not its text).
+#[derive(Default, Clone, Copy)]
+pub struct TreeKinds {
+    pub matrix: bool,
+    pub aho: bool,
+    pub regex_set: bool,
+    pub nested: bool,
+    pub negate: bool,
+    pub match_all: bool,
+    pub match_of: bool,
+}
+
+fn walk(e: &tau_engine::core::parser::Expression, k: &mut TreeKinds) {
+    use tau_engine::core::parser::{Expression as E, Match, Search};
+    match e {
+        E::BooleanGroup(_, g) => g.iter().for_each(|x| walk(x, k)),
+        E::BooleanExpression(l, _, r) => {
+            walk(l, k);
+            walk(r, k);
+        }
+        E::Match(m, x) => {
+            match m {
+                Match::All => k.match_all = true,
+                Match::Of(_) => k.match_of = true,
+            }
+            walk(x, k);
+        }
+        E::Matrix(_, rows) => {
+            k.matrix = true;
+            for row in rows {
+                for cell in row.iter().flatten() {
+                    walk(cell, k);
+                }
+            }
+        }
+        E::Negate(x) => {
+            k.negate = true;
+            walk(x, k);
+        }
+        E::Nested(_, x) => {
+            k.nested = true;
+            walk(x, k);
+        }
+        E::Search(s, _, _) => match s {
+            Search::AhoCorasick(_, _, _) => k.aho = true,
+            Search::RegexSet(_, _) => k.regex_set = true,
+            _ => {}
+        },
+        _ => {}
+    }
+}
+
+pub fn tree_kinds(rule: &Rule) -> TreeKinds {
+    let mut k = TreeKinds::default();
+    walk(&rule.detection.expression, &mut k);
+    for (_, e) in rule.detection.identifiers.iter() {
+        walk(e, &mut k);
+    }
+    k
+}
+
+/// Probe counters for the node kinds of a rule's tree.
+pub fn tree_probes(rule: &Rule, stats: &mut Stats) {
+    let k = tree_kinds(rule);
+    for (on, name) in [
+        (k.matrix, "probe_matrix_formed"),
+        (k.aho, "probe_aho_formed"),
+        (k.regex_set, "probe_regex_set_formed"),
+        (k.nested, "probe_nested"),
+        (k.negate, "probe_negate"),
+        (k.match_all, "probe_match_all"),
+        (k.match_of, "probe_match_of"),
     ] {
-        if show.contains(needle) {
+        if on {
             stats.inc(name);
         }
     }
